@@ -94,6 +94,8 @@ package metadata
 //@ func (*Metadata).MarshalBinary
 //@   property C11
 //@   requires m != nil && allNonNil(m)
+// what is sorted is the metadata itself - the list the encoding loop then walks
+//@   at call Sort: assert typeis(arg0, "*metadata.Metadata") && payload(arg0) == m
 //@   at call Sort: after assume allNonNil(m)
 //@   at call Sort: after assume forall(i, 0, len(m.protocols) - 1, protoID(m.protocols[i]) <= protoID(m.protocols[i+1]))
 //@   at call Sort: after assume len(m.protocols) == old(len(m.protocols))
